@@ -54,6 +54,7 @@ type Obj struct {
 	Size func() int
 	Proj func() (keys, vals []int) // full enumeration
 	Pool []string                  // human readable, for the Reset event
+	Hdr  Ev                        // configuration of the object the specification needs (Reset event)
 }
 
 func (o *Obj) Has(name string) bool { _, ok := o.Ops[name]; return ok }
@@ -113,6 +114,9 @@ func Start(t *core.Trace, gen string, cas int, o *Obj, full bool, extra Ev) *Ses
 	s := &Session{T: t, O: o, Full: full}
 	hdr := Ev{"t": o.Type, "ctor": o.Ctor, "n": o.N, "ek": o.EK, "pool": o.Pool}
 	for k, v := range extra {
+		hdr[k] = v
+	}
+	for k, v := range o.Hdr {
 		hdr[k] = v
 	}
 	var size int
